@@ -32,6 +32,32 @@ def memo_attrs(f, roots=('self', 'cls')):
     writes = attr_writes(f, roots)
     if f.cls is not None:
         writes |= {w.replace(f.cls.name + '.', 'cls.', 1) for w in attr_writes(f, (f.cls.name,))}
+    # locals that carry (part of) such an attribute: `stored = self._memo.get(key)`, `a, b = stored`, ...
+    derived = {}
+    changed = True
+    while changed:
+        changed = False
+        for n in ast.walk(f.node):
+            if not isinstance(n, ast.Assign):
+                continue
+            src = set()
+            for x in ast.walk(n.value):
+                d = dotted(x) if isinstance(x, ast.Attribute) else None
+                if d is not None:
+                    d2 = 'cls.' + d[len(f.cls.name) + 1:] if f.cls is not None and d.startswith(f.cls.name + '.') else d
+                    for w in writes:
+                        if d2 == w or d2.startswith(w + '.'):
+                            src.add(w)
+                if isinstance(x, ast.Name) and x.id in derived:
+                    src |= derived[x.id]
+            if not src:
+                continue
+            for t in n.targets:
+                for x in ast.walk(t):
+                    if isinstance(x, ast.Name) and isinstance(x.ctx, ast.Store):
+                        if not src <= derived.get(x.id, set()):
+                            derived.setdefault(x.id, set()).update(src)
+                            changed = True
     out = {}
     for n in ast.walk(f.node):
         test = None
@@ -40,6 +66,9 @@ def memo_attrs(f, roots=('self', 'cls')):
         if test is None:
             continue
         for x in ast.walk(test):
+            if isinstance(x, ast.Name) and x.id in derived:
+                for w in derived[x.id]:
+                    out.setdefault(w, ast.unparse(test)[:100])
             d = dotted(x) if isinstance(x, ast.Attribute) else None
             if d is None:
                 continue
